@@ -40,7 +40,9 @@ def get_file_metadata(path, hashes):
     try:
         # we want O_NONBLOCK to avoid blocking when opening pipes
         fd = os.open(path, os.O_RDONLY | os.O_NONBLOCK)
-    except FileNotFoundError:
+    except (FileNotFoundError, NotADirectoryError):
+        # NB: ENOTDIR = a component of the path is not a directory
+        # (any more), so the file cannot exist either
         exists = False
         opened = False
     except OSError as err:
